@@ -5,6 +5,7 @@ import (
 	"crypto/sha256"
 	"encoding/binary"
 	"fmt"
+	"github.com/mosaicnetworks/babble/src/babble"
 	"github.com/mosaicnetworks/babble/src/proxy"
 	"github.com/mosaicnetworks/babble/src/proxy/inmem"
 	"io"
@@ -126,12 +127,12 @@ type SimNode struct {
 	// the node has no transport (nobody reaches it through the network)
 	// the node's database refused at least one write (injected transient error)
 	storeErrSeen bool
-	maintNext   bool
-	maintenance bool
-	ownScanned      int
-	ownPayload      map[string]int
-	sigChecked      map[string]bool
-	frameChecked    map[int]bool
+	maintNext    bool
+	maintenance  bool
+	ownScanned   int
+	ownPayload   map[string]int
+	sigChecked   map[string]bool
+	frameChecked map[int]bool
 }
 
 // running: the node has a live incarnation whose store may be read (a node
@@ -435,20 +436,24 @@ func (c *Cluster) startNode(n *SimNode, bootstrap bool) error {
 	conf.Moniker = n.moniker
 	n.conf = conf
 
+	// the store is opened by babble's own Babble.initStore (store kind, backup
+	// of an existing database unless bootstrapping, maintenance mode)
 	var store hg.Store
-	if n.storeKind == "badger" {
+	conf.Store = n.storeKind == "badger"
+	if conf.Store {
 		if n.dbPath == "" {
 			n.dbPath = filepath.Join(c.workdir, fmt.Sprintf("db-n%d-e%d", n.idx, n.epoch))
 		}
-		bs, err := hg.NewBadgerStore(n.cacheSize, n.dbPath, n.maintNext, conf.Logger())
-		if err != nil {
-			return fmt.Errorf("NewBadgerStore(%s): %v", n.dbPath, err)
-		}
-		store = bs
+		conf.DatabaseDir = n.dbPath
+	}
+	eng := babble.NewBabble(conf)
+	if err := eng.SimInitStore(); err != nil {
+		return fmt.Errorf("Babble.initStore(%s): %v", n.dbPath, err)
+	}
+	store = eng.Store
+	if conf.Store {
 		c.byPath[n.dbPath] = n
 		_, n.vlogAtOpen = vlogSize(n.dbPath)
-	} else {
-		store = hg.NewInmemStore(n.cacheSize)
 	}
 	if c.recordWrites && n.idx == 0 && c.recorder == nil {
 		c.recorder = &recStore{Store: store}
